@@ -349,14 +349,20 @@ func parseVarRef(ps ParseState) frt.Tuple2[ParseState, Expr] {
 			return mightParseSpecifiedTypeList(parseType, _r0)
 		}))
 	}), (func() frt.Tuple2[ParseState, []FType] {
-		return frt.Pipe(emptyFtps(), (func(_r0 []FType) frt.Tuple2[ParseState, []FType] { return PairL(psNext(ps), _r0) }))
+		return frt.Pipe(emptyFtps(), (func() func(_r0 []FType) frt.Tuple2[ParseState, []FType] {
+			_p0 := psNext(ps)
+			return func(_r0 []FType) frt.Tuple2[ParseState, []FType] { return PairL(_p0, _r0) }
+		})())
 	})))
 	return frt.IfElse(frt.OpNotEqual(psCurrentTT(ps2), New_TokenType_DOT), (func() frt.Tuple2[ParseState, Expr] {
 		return frt.Pipe(refVar(firstId, stlist, ps2), (func(_r0 Expr) frt.Tuple2[ParseState, Expr] { return PairL(ps2, _r0) }))
 	}), (func() frt.Tuple2[ParseState, Expr] {
 		vfac, ok := frt.Destr2(scLookupVarFac(ps2.scope, firstId))
 		return frt.IfElse(ok, (func() frt.Tuple2[ParseState, Expr] {
-			return frt.Pipe(frt.Pipe(frt.Pipe(psTypeVarGen(ps2), (func(_r0 func() TypeVar) VarRef { return vfac(emptyFtps(), _r0) })), New_Expr_EVarRef), (func(_r0 Expr) frt.Tuple2[ParseState, Expr] { return parseFAAfterDot(ps2, _r0) }))
+			return frt.Pipe(frt.Pipe(frt.Pipe(psTypeVarGen(ps2), (func() func(_r0 func() TypeVar) VarRef {
+				_p0 := emptyFtps()
+				return func(_r0 func() TypeVar) VarRef { return vfac(_p0, _r0) }
+			})()), New_Expr_EVarRef), (func(_r0 Expr) frt.Tuple2[ParseState, Expr] { return parseFAAfterDot(ps2, _r0) }))
 		}), (func() frt.Tuple2[ParseState, Expr] {
 			ps3, fullName := frt.Destr2(parseFullName(ps))
 			ps4, stlist := frt.Destr2(mightParseSpecifiedTypeList(parseType, ps3))
@@ -427,7 +433,10 @@ func parseAtom(parseE func(ParseState) frt.Tuple2[ParseState, Expr], ps ParseSta
 				frt.IfOnly((slice.Length(elist) > 3), (func() {
 					psPanic(ps3, "More then 3 elem tuple, NYI.")
 				}))
-				return frt.Pipe(frt.Pipe(elist, New_Expr_ETupleExpr), (func(_r0 Expr) frt.Tuple2[ParseState, Expr] { return PairL(psConsume(New_TokenType_RPAREN, ps3), _r0) }))
+				return frt.Pipe(frt.Pipe(elist, New_Expr_ETupleExpr), (func() func(_r0 Expr) frt.Tuple2[ParseState, Expr] {
+					_p0 := psConsume(New_TokenType_RPAREN, ps3)
+					return func(_r0 Expr) frt.Tuple2[ParseState, Expr] { return PairL(_p0, _r0) }
+				})())
 			}), (func() frt.Tuple2[ParseState, Expr] {
 				return frt.Pipe(frt.NewTuple2(ps2, e1), (func(_r0 frt.Tuple2[ParseState, Expr]) frt.Tuple2[ParseState, Expr] {
 					return MapL((func(_r0 ParseState) ParseState { return psConsume(New_TokenType_RPAREN, _r0) }), _r0)
@@ -867,7 +876,10 @@ func parseBinAfter(pEwithMinPrec func(int, ParseState) frt.Tuple2[ParseState, Ex
 		return frt.IfElse((bop.Precedence < minPrec), (func() frt.Tuple2[ParseState, Expr] {
 			return frt.NewTuple2(ps, cur)
 		}), (func() frt.Tuple2[ParseState, Expr] {
-			ps3, rhs := frt.Destr2(frt.Pipe(psConsume(btk, ps2), (func(_r0 ParseState) frt.Tuple2[ParseState, Expr] { return pEwithMinPrec((bop.Precedence + 1), _r0) })))
+			ps3, rhs := frt.Destr2(frt.Pipe(psConsume(btk, ps2), (func() func(_r0 ParseState) frt.Tuple2[ParseState, Expr] {
+				_p0 := (bop.Precedence + 1)
+				return func(_r0 ParseState) frt.Tuple2[ParseState, Expr] { return pEwithMinPrec(_p0, _r0) }
+			})()))
 			tvgen := psTypeVarGen(ps3)
 			return frt.Pipe(newBinOpCall(tvgen, btk, bop, cur, rhs), (func(_r0 Expr) frt.Tuple2[ParseState, Expr] { return parseBinAfter(pEwithMinPrec, minPrec, ps3, _r0) }))
 		}))
@@ -972,11 +984,13 @@ func defVarIfNecessary(sc Scope, v Var) {
 
 func parseLetDestVarDef(pExpr func(ParseState) frt.Tuple2[ParseState, Expr], ps ParseState) frt.Tuple2[ParseState, LetDestVarDef] {
 	ps2 := psMulConsume(([]TokenType{New_TokenType_LET, New_TokenType_LPAREN}), ps)
-	ps3, vnames := frt.Destr2(frt.Pipe(frt.Pipe(ParseSepList(psIdentOrUSNameNx, New_TokenType_COMMA, ps2), (func(_r0 frt.Tuple2[ParseState, []string]) frt.Tuple2[ParseState, []string] {
-		return MapL((func(_r0 ParseState) ParseState {
-			return psMulConsume(([]TokenType{New_TokenType_RPAREN, New_TokenType_EQ}), _r0)
-		}), _r0)
-	})), (func(_r0 frt.Tuple2[ParseState, []string]) frt.Tuple2[ParseState, []string] {
+	ps3, vnames := frt.Destr2(frt.Pipe(frt.Pipe(ParseSepList(psIdentOrUSNameNx, New_TokenType_COMMA, ps2), (func() func(_r0 frt.Tuple2[ParseState, []string]) frt.Tuple2[ParseState, []string] {
+		_p0 := (func() func(_r0 ParseState) ParseState {
+			_p0 := ([]TokenType{New_TokenType_RPAREN, New_TokenType_EQ})
+			return func(_r0 ParseState) ParseState { return psMulConsume(_p0, _r0) }
+		})()
+		return func(_r0 frt.Tuple2[ParseState, []string]) frt.Tuple2[ParseState, []string] { return MapL(_p0, _r0) }
+	})()), (func(_r0 frt.Tuple2[ParseState, []string]) frt.Tuple2[ParseState, []string] {
 		return MapL(psSkipEOL, _r0)
 	})))
 	frt.IfOnly((slice.Length(vnames) > 3), (func() {
@@ -1075,7 +1089,10 @@ func parseRootLetFuncDef(pLet func(ParseState) frt.Tuple2[ParseState, LLetVarDef
 	ps2, lfd := frt.Destr2(parseLetFuncDef(pLet, ps))
 	psForErrMsg(ps)
 	rfd := InferLfd(ps2.tvc, lfd)
-	frt.PipeUnit(rfdToFuncFactory(rfd), (func(_r0 FuncFactory) { scRegFunFac(ps2.scope, rfd.Lfd.Fvar.Name, _r0) }))
+	frt.PipeUnit(rfdToFuncFactory(rfd), (func() func(_r0 FuncFactory) {
+		_p1 := rfd.Lfd.Fvar.Name
+		return func(_r0 FuncFactory) { scRegFunFac(ps2.scope, _p1, _r0) }
+	})())
 	return frt.NewTuple2(ps2, rfd)
 }
 
@@ -1161,7 +1178,10 @@ func parseRootLet(pExpr func(ParseState) frt.Tuple2[ParseState, Expr], ps0 Parse
 		lfd := _v10.Value
 		psForErrMsg(ps)
 		rfd := InferLfd(ps2.tvc, lfd)
-		frt.PipeUnit(rfdToFuncFactory(rfd), (func(_r0 FuncFactory) { scRegFunFac(ps2.scope, rfd.Lfd.Fvar.Name, _r0) }))
+		frt.PipeUnit(rfdToFuncFactory(rfd), (func() func(_r0 FuncFactory) {
+			_p1 := rfd.Lfd.Fvar.Name
+			return func(_r0 FuncFactory) { scRegFunFac(ps2.scope, _p1, _r0) }
+		})())
 		return frt.NewTuple2(ps2, New_RootStmt_RSRootFuncDef(rfd))
 	default:
 		panic("Union pattern fail. Never reached here.")
